@@ -109,6 +109,8 @@ def expected_value_cells(col, n):
 
 def _collides(a, b):
     def parse(t):
+        if t in ("True", "False"):       # (val_to_num reads these two texts as booleans, and False == 0, True == 1)
+            return t == "True"
         for f in (lambda x: int(x, 10), float, lambda x: pd.Timestamp(x).value, lambda x: pd.Timedelta(x).value):
             try:
                 return f(t)
